@@ -334,7 +334,8 @@ def fresh_real(tag="uninit"):
 
 def trunc_term(e):
     e = toreal(e)
-    return z3.If(e >= 0, z3.ToInt(e), -z3.ToInt(-e))
+    f = z3.ToInt(e)           # floor; only one ToInt term keeps the mixed int/real reasoning easy for z3
+    return z3.If(z3.Or(e >= 0, e == z3.ToReal(f)), f, f + 1)
 
 
 def cast_scalar(x, dt, assume_in_range=False):
@@ -539,6 +540,9 @@ class ndarray(metaclass=_NdMeta):
 
     def copy(self):
         return ndarray(list(self._d), self.shape, self.dtype)
+
+    def __deepcopy__(self, memo):
+        return self.copy()
 
     def view(self, dt=None):
         if dt is None:
@@ -1044,6 +1048,10 @@ def from_real(a):
 
 def array(x, dtype=None, copy=True, ndmin=0):
     d = as_dtype(dtype)
+    if hasattr(x, "_symx_payload"):
+        x = x._symx_payload
+    elif hasattr(x, "__array__") and not isnd(x) and not isinstance(x, (_rnp.ndarray, _rnp.generic)):
+        x = _rnp.asarray(x)         # e.g. a real h5py dataset
     if isinstance(x, RecArray):
         return x
     if isinstance(d, RecDtype):
@@ -1213,6 +1221,9 @@ class RecArray(ndarray):
 
     def copy(self):
         return RecArray(self.names, [self.cols[n].copy() for n in self.names], self.dtype)
+
+    def __deepcopy__(self, memo):
+        return self.copy()
 
     def view(self, dt=None):
         d = as_dtype(dt)
@@ -1483,6 +1494,11 @@ def _setitem(a, key, val):
         src_dt = val.dtype
     else:
         v = _py(val)
+        if a.dtype.kind in "iu" and isinstance(v, _pyfloat):
+            if v != v:
+                raise ValueError("cannot convert float NaN to integer")
+            if v in (math.inf, -math.inf):
+                raise OverflowError("cannot convert float infinity to integer")
         vals = [v] * tgt.size
         src_dt = scalar_dtype(v)
     if a.dtype.kind in "iufb" and src_dt.kind in "iufb":
